@@ -67,8 +67,8 @@ func secretOf(access string) (string, bool) {
 	return "", false
 }
 
-var defects = []string{"no-auth", "empty-auth", "malformed", "unknown-key", "wrong-secret", "old-secret", "sig-digit", "sig-form", "sig-zero",
-	"alter-header", "dup-header", "alter-query", "alter-path", "alter-payload", "payload-hash", "date-skew", "scope-date", "scope-region",
+var defects = []string{"no-auth", "empty-auth", "malformed", "unknown-key", "unknown-key-empty-secret", "wrong-secret", "old-secret", "sig-digit", "sig-form", "sig-zero",
+	"alter-header", "dup-header", "alter-query", "alter-query-raw", "alter-path", "alter-payload", "payload-hash", "date-skew", "scope-date", "scope-region",
 	"scope-service", "scope-term"}
 var presignDefects = []string{"expired", "date-future", "value-delims", "expires-altered", "sig-digit", "sig-form", "sig-zero", "alter-query", "alter-path", "param-missing",
 	"unknown-key", "wrong-secret", "old-secret", "scope-region"}
@@ -300,6 +300,10 @@ func damage(r *s3c.Req, c caseA, now time.Time) {
 		r.Set("Authorization", variants[c.Arg%len(variants)](auth))
 	case "unknown-key":
 		resign(r, cat.Ghost, now, gw.Region, "s3")
+	case "unknown-key-empty-secret":
+		// an access key no account has, signed with the empty string (execA sends a request under that key first: what
+		// the gateway remembers about a key it could not find must not become an account)
+		resign(r, s3c.Creds{Access: cat.Ghost.Access, Secret: ""}, now, gw.Region, "s3")
 	case "wrong-secret":
 		resign(r, s3c.Creds{Access: cr.Access, Secret: cr.Secret + "x"}, now, gw.Region, "s3")
 	case "old-secret":
@@ -370,6 +374,15 @@ func damage(r *s3c.Req, c caseA, now time.Time) {
 		}
 	case "alter-query":
 		r.Query = append(r.Query, s3c.KV{K: []string{"versionId", "max-keys", "prefix", "x"}[c.Arg%4], V: "1"})
+	case "alter-query-raw":
+		// a pair added after signing, written so that a query parser may drop it (a raw ';', a percent sign that begins
+		// no escape) while the router still sees it; several of them name a sub-resource, i.e. another operation
+		pairs := []string{"tagging=;", "acl=%zz", "delimiter=;", "uploads=;", "versionId=%ZZ", "x;y=1", "policy=%", "tagging=%zz", "versioning=;", "delete=;", "a=1;tagging="}
+		q := ""
+		if w := r.WirePath(); strings.Contains(w, "?") {
+			q = w[strings.Index(w, "?")+1:] + "&"
+		}
+		r.RawQuery, r.UseRawQ = q+pairs[c.Arg%len(pairs)], true
 	case "alter-path":
 		r.Path += "x"
 	case "alter-payload":
@@ -624,7 +637,9 @@ func execA(c caseA) (v verdict, err error) {
 	bad := valid.Clone()
 	bad.BodySeed, bad.BodyLen = valid.BodySeed, valid.BodyLen
 	damage(bad, c, now)
-	if proofValid(bad, now) {
+	// (alter-query-raw: the pair sits in the request line only, the filter below reads the structured query; a
+	// request line with a parameter the signature does not cover carries no proof by construction)
+	if c.Defect != "alter-query-raw" && proofValid(bad, now) {
 		v.Discarded = "damage ineffective (request still carries a correct proof)"
 		return v, nil
 	}
@@ -658,6 +673,14 @@ func execA(c caseA) (v verdict, err error) {
 		enc = append(enc, []byte("0\r\n\r\n")...)
 		bad.Body, bad.BodyLen, bad.DeclaredLen = enc, 0, nil
 		bad.Set("Transfer-Encoding", "chunked")
+	}
+	if strings.HasPrefix(c.Defect, "unknown-key") {
+		// the key has been seen (and not found) before
+		for i := 0; i <= c.Arg%2; i++ {
+			prime := &s3c.Req{Method: "GET", Path: "/"}
+			prime.Sign(s3c.SignOpt{Creds: cat.Ghost, Region: gw.Region, Time: now})
+			s3c.Do(w.t, prime)
+		}
 	}
 	before := gw.Snap(w.fx.Dirs(), nil)
 	resp, terr := s3c.Do(w.t, bad)
